@@ -43,6 +43,7 @@ pub fn replay(doc: &J) -> i32 {
     match prop {
         "C06" | "C16" => crate::driver::replay::<ChainScenario>(doc),
         "C10" | "C11" | "C12" | "C13" => crate::driver::replay::<crate::props_sched::SchedScenario>(doc),
+        "C15" if doc["batch"].as_str().unwrap_or("").starts_with("sampler_") => crate::driver::replay::<crate::props_sched::SchedScenario>(doc),
         "C14" | "C15" => crate::driver::replay::<StoreScenario>(doc),
         "C03" => crate::driver::replay::<TrajScenario>(doc),
         "C05" => crate::driver::replay::<FaultScenario>(doc),
@@ -556,7 +557,40 @@ fn c15(tier: Tier, seed: u64) -> i32 {
         sc.fail_write = Some(r.range(60, 400));
         sc
     });
-    ctx.finish("fault_enumeration", components_engine_c(), vec![
+    let n5 = ctx.n(1200, 120_000);
+    ctx.run_batch("sampler_flush_forwarding", "engine B (the real Sampler under the seeded scheduler, recording storage): scripts with flush calls while running and while paused (pause, flush, flush again, resume; flush twice in a row; flush around the chain's last draw) x interleavings; a flush() that returned Ok must have called ChainStorage::flush of every chain after the last draw that chain had recorded when flush() was invoked, unless that chain's storage was already finalised", n5, |rs, _| {
+        let mut sc = gen_sched(rs, &GenOpts { prop: "C15", style: ScriptStyle::Mixed, tier, allow_abort: false, natural_divergences: false });
+        let mut r = Prng::sub(rs, "flushscript");
+        // flush-heavy script: pauses with one or two flushes inside, flushes while running
+        let mut script = vec![];
+        for _ in 0..r.range(1, 4) {
+            script.push(crate::props_sched::UserCmd::Yield(r.range(0, 12) as u32));
+            match r.below(4) {
+                0 => script.push(crate::props_sched::UserCmd::Flush),
+                1 => { script.push(crate::props_sched::UserCmd::Flush); script.push(crate::props_sched::UserCmd::Flush); }
+                _ => {
+                    script.push(crate::props_sched::UserCmd::Pause);
+                    script.push(crate::props_sched::UserCmd::Flush);
+                    script.push(crate::props_sched::UserCmd::Yield(r.range(0, 30) as u32));
+                    script.push(crate::props_sched::UserCmd::Flush);
+                    if r.chance(0.3) { script.push(crate::props_sched::UserCmd::Yield(r.range(0, 10) as u32)); script.push(crate::props_sched::UserCmd::Flush); }
+                    script.push(crate::props_sched::UserCmd::Resume);
+                }
+            }
+        }
+        sc.script = script;
+        sc.ending = crate::props_sched::Ending::WaitDone;
+        sc
+    });
+    let mut comp = components_engine_c();
+    if let (Some(o), Some(c)) = (comp.as_object_mut(), components_engine_b().as_object()) {
+        for k in ["real_code", "stubs", "seams"] {
+            if let (Some(J::Array(a)), Some(J::Array(b))) = (o.get_mut(k), c.get(k)) {
+                a.extend(b.iter().cloned());
+            }
+        }
+    }
+    ctx.finish("fault_enumeration", comp, vec![
         "crash = the process stops right after flush() returned; what survives is the store content at that moment (snapshot)".into(),
         "async writer: tokio is not under the simulator; write completion is delayed by seeded real-time sleeps, the verdict only depends on 'did the call wait for its writes'".into(),
         "filesystem store: sync writer only (a fifth of the flush-point runs, a quarter of the write-fault runs); the crash point is 'the process stops between two calls', torn or lost file writes inside a call are outside the property's quantifier".into(),
